@@ -72,6 +72,11 @@ CLAIMED = {
          '(regression witness of the repaired defect), gauss_tangent_isotropic, image_pixel_interval (searchsorted on the cumulative ⇒ pixel share), unravel_spec/unravel_row_lt; oracles with '
          'numpy.random intercepted: area law, azimuth, point sources, Gaussian moments, non-square images, interior pixels vs build_intensity_map incl. centres next to RA 0/360.',
          'Lean kernel + Mathlib; translator; uniformity of numpy.random and multivariate_normal; astropy.wcs; the statistical comparisons use stratified (deterministic) uniforms, not random samples.'),
+ 'C17': ('proof', 'Lean 4 theorems about a fold model on the generated Taylor polynomials; the spline inversion is a hypothesis whose accuracy is measured on every run',
+         'fold_is_fract (re-referenced fold = frac(φ(t) − φ(start) + φ₀) for every epoch), fold_range, fold_offset, roundtrip, rvs_fold_roundtrip (generated times fold back to the generated '
+         'phases for any exact inverse), rvs_in_window, tail_share (the repaired share of the last partial period follows the profile) with tail_share_old_fails; oracles: round trip envelope, '
+         'xEphemeris.rvs (sorted, in window, fold = phase, KS in free-running phase, tail share), periodic source data flow through the GTI filter, xpphase on two files.',
+         'Lean kernel + Mathlib; translator; FITPACK spline inversion measured (partial): envelope 5e-12·periods + 2e-7 + 16 ulp(MET)·ν₀; fixed-seed statistics with 6σ / KS bands.'),
 }
 NOT_YET = 'check not built yet in this round (work in progress; see DESIGN.md section 7 for the planned model and theorems)'
 
